@@ -165,7 +165,7 @@ def prepare(info, workdir):
         ["goto-instrument", "--ensure-one-backedge-per-target", base + "3.out", base + "4.out"],
     ]
     for s in steps:
-        rc, out, _, to, _ = _run(s, timeout=600)
+        rc, out, _, to, _ = _run(s, timeout=2400)
         if rc != 0 or to:
             raise RuntimeError("%s failed: %s" % (s[0], (out or "")[-2000:]))
     return base + "4.out"
